@@ -4,6 +4,7 @@ from . import model, emit, runner
 from .runner import VERIF, VfError, BE_NAMES
 
 NPAR = int(os.environ.get('VF_JOBS', '16'))
+MEMSAFE = re.compile(r'double free|free argument|deallocated dynamic object in \*|dereference failure|memory leak|dynamic object|dead object|invalid pointer|free called')
 
 
 def log(*a):
@@ -75,7 +76,7 @@ def merge_results(rs):
 
 
 def attempt(job, strat, timeout):
-    kinds = list(range(job.unit.nevents)) if 'k' in strat else [None]
+    kinds = list(range(job.unit.nevents)) if ('k' in strat and job.unit.nevents > 1) else [None]
     subs = [(k, gfix) for k in kinds for gfix in guard_splits(job, strat, k)]
     def one(sub):
         k, gfix = sub
@@ -200,11 +201,23 @@ class Check:
                        'inputs': cex['inputs'], 'unit_opts': getattr(u, 'spec', None)}
                 if cex['inputs'] is None:
                     inconclusive.append((j, 'no trace for failed property %s' % cex['cbmc_property'])); continue
-                rec['kind'] = cex['inputs'][1]
-                rc, out = replay_native(u, j.h, cex['inputs'])
+                rec['kind'] = cex['inputs'][1] if u.be != 'K' else None
                 lab = cex['label']
-                reproduced = ('CHECK-FAILED ' + lab) in out or (lab.startswith('env:') and rc not in (0, 1, 77)) or \
-                             (rc not in (0, 77) and 'CHECK-FAILED' in out and lab.split(':')[0] in out)
+                if MEMSAFE.search(lab):
+                    # CBMC's own memory-safety properties: replay on an AddressSanitizer build of the real code
+                    rc, out = u.run_native_asan(j.h, cex['inputs'])
+                    reproduced = rc not in (0, 77) and 'AddressSanitizer' in out
+                    if reproduced:
+                        m_ = re.search(r'ERROR: AddressSanitizer: ([a-z-]+(?: [a-z-]+)?)', out)
+                        lab = rec['label'] = 'memory-safety:' + (m_.group(1) if m_ else 'asan')
+                    out = out[:1500]
+                elif 'pointer arithmetic' in lab or 'pointer relation' in lab:
+                    # pointer-overflow style findings never reproduce under sanitizers: reported separately, not as violations
+                    inconclusive.append((j, 'pointer-arithmetic finding (not replayable): ' + lab[:120])); continue
+                else:
+                    rc, out = replay_native(u, j.h, cex['inputs'])
+                    reproduced = ('CHECK-FAILED ' + lab) in out or (lab.startswith('env:') and rc not in (0, 1, 77)) or \
+                                 (rc not in (0, 77) and 'CHECK-FAILED' in out and lab.split(':')[0] in out)
                 rec['native_output'] = out[-1500:]
                 if not reproduced:
                     inconclusive.append((j, 'counterexample for "%s" did not reproduce on the native build (encoding error?) inputs=%s' % (lab, cex['inputs'][:6])))
